@@ -19,7 +19,9 @@ From DW Require Export PyStr.
 (* concrete classes the annotations mention; CNoZero = a class whose no-arg
    call raises TypeError (datetime, Any, abstract collections) *)
 Inductive conc := CInt | CStr | CFloat | CBool | CBytes | CTuple | CFrozenset
-                | CList | CDict | CSet | CNoZero.
+                | CList | CDict | CSet | CNoZero
+                | COrdDict | CDefDict | CCounter | CMyList.   (* subclasses of dict / list: OrderedDict,
+                                                                 defaultdict, Counter, a user list subclass *)
 
 Inductive factory :=
 | FacConc (c : conc)        (* default_factory=list / str / ... *)
@@ -38,7 +40,7 @@ Definition is_prop (v : value) : bool := match v with VPropObj => true | _ => fa
 
 Definition has_zero (c : conc) : bool := match c with CNoZero => false | _ => true end.
 Definition mutable (c : conc) : bool :=
-  match c with CList | CDict | CSet => true | _ => false end.
+  match c with CList | CDict | CSet | COrdDict | CDefDict | CCounter | CMyList => true | _ => false end.
 
 Definition zero (c : conc) : value :=
   match c with
